@@ -11,6 +11,8 @@ type unindexedMessageIterator struct {
 	topics   map[string]bool
 	start    uint64
 	end      uint64
+	// endUnbounded: no upper bound was requested; end is not an exclusive limit.
+	endUnbounded bool
 
 	recordBuf []byte
 
@@ -61,7 +63,7 @@ func (it *unindexedMessageIterator) NextInto(msg *Message) (*Schema, *Channel, *
 				// channel ID, it has no option but to skip.
 				continue
 			}
-			if msg.LogTime >= it.start && msg.LogTime < it.end {
+			if msg.LogTime >= it.start && (msg.LogTime < it.end || it.endUnbounded) {
 				schema := it.schemas.Get(channel.SchemaID)
 				if schema == nil && channel.SchemaID != 0 {
 					return nil, nil, nil, fmt.Errorf("channel %d with unrecognized schema ID %d", msg.ChannelID, channel.SchemaID)
